@@ -154,6 +154,28 @@ def zero_rewards(game):
     return g
 
 
+def twin_games(games, rng, count):
+    """for `count` of the given (game, meta): append a state t' that copies the owner and the transition list of a
+    non-Player-1 state t, has reward 0 and no predecessor (variant 0), or whose only predecessor is a further new
+    predecessor-less probabilistic state (variant 1: t' is dropped in the second round of prune_states). meta gets
+    share=True: the harness spells the description with ONE list object for equal rows, so a solver that empties a
+    dropped state's list in place would empty t's as well."""
+    out = []
+    pool = [gm for gm in games if any(p != "Player 1" and row for p, row in zip(gm[0]["players"], gm[0]["transition_list"]))]
+    rng.shuffle(pool)
+    for k, (g, m) in enumerate(pool[:count]):
+        cand = [i for i, (p, row) in enumerate(zip(g["players"], g["transition_list"])) if p != "Player 1" and row]
+        t = rng.choice(cand)
+        h = dict(players=list(g["players"]) + [g["players"][t]], rewards=list(g["rewards"]) + [0],
+                 transition_list=[list(r) for r in g["transition_list"]] + [list(g["transition_list"][t])],
+                 final_states=list(g["final_states"]))
+        if k % 2:
+            n = len(h["players"])
+            h["players"].append("Probabilistic"); h["rewards"].append(0); h["transition_list"].append([(1, n - 1)])
+        out.append((h, dict(m, share=True, twin=t)))
+    return out
+
+
 TERMINATING = ("stopping", "exact", "ties", "pattern", "corpus")   # styles whose reward loop must terminate
 
 def pattern_games3(kmax, tiny=1e-7):
